@@ -13,6 +13,8 @@ From Coq Require Import List NArith ZArith Bool.
 From NextestModel Require Import Base.Str Model.Result Model.Dispatcher Model.Unit
      Model.FutureQueue Model.Run
      Proofs.Result Proofs.Dispatcher Proofs.Unit Proofs.FutureQueue Proofs.Run.
+From NextestModel Require Import Model.RunScripts Proofs.RunScripts.
+From NextestModel Require Model.Scripts Proofs.Scripts Properties.C18.
 Import ListNotations.
 Open Scope N_scope.
 
@@ -185,4 +187,86 @@ Example C11_example :
   /\ mail_summary (xsys_run ex_sys_cfg (xsys0 ex_sys_cfg None true)
                      (ex_sys_schedule ++ [SEvent (SigShutdown Term); SEvent (SigShutdown Hangup)])) [0; 1; 2]
      = Some ([2; 0; 2], 0).
+Proof. repeat split; vm_compute; reflexivity. Qed.
+
+(* ---- C18 over the real dispatcher model: no abstract premise left ----
+   Properties/C18.v states its run theorems for every dispatcher obeying [disp_laws] /
+   [disp_live].  [real_disp p] (Model/RunScripts.v) is that interface implemented by the dispatcher
+   model itself: every start request is [dstep_live] on SetupScriptStarted / Started, every script
+   result [dstep_live] on SetupScriptFinished, the exit status is exit_code (summarize_final
+   run_stats) under the no-tests policy [p] (release build: debug assertions off). *)
+
+Theorem C18_real_dispatcher_obeys_laws :
+  forall p, Scripts.disp_laws (real_disp p) /\ Scripts.disp_live (real_disp p).
+Proof. exact real_laws_and_live. Qed.
+Print Assumptions C18_real_dispatcher_obeys_laws.
+
+(* the instance never takes its fallback arm: none of the three steps can panic *)
+Theorem C18_real_dispatcher_never_panics :
+  forall x r,
+    (exists d' evs rsp, dstep_live (release (rd_d x)) (ScriptStarted (rd_sid x)) = (Live d', evs, rsp)) /\
+    (exists d' evs rsp, dstep_live (release (rd_d x)) (Started (fresh_tid (release (rd_d x)))) = (Live d', evs, rsp)) /\
+    (exists d' evs rsp, dstep_live (release (rd_d x)) (ScriptFinished (rd_sid x) (to_result r)) = (Live d', evs, rsp)).
+Proof. exact real_step_never_panics. Qed.
+Print Assumptions C18_real_dispatcher_never_panics.
+
+(* script failure => no test starts and exit 105, for the dispatcher model, from any state *)
+Theorem C18_failure_real_dispatcher :
+  forall p (d0 : rdstate) defs rules sel outs reqs s r,
+    In (Scripts.EvScriptFinished s r) (snd (Scripts.run (real_disp p) d0 defs rules sel outs reqs)) ->
+    Scripts.is_success r = false ->
+    (forall t env, ~ In (Scripts.EvTestStarted t env)
+                        (snd (Scripts.run (real_disp p) d0 defs rules sel outs reqs)))
+    /\ exit_code (summarize_final (d_stats (rd_d (fst (Scripts.run (real_disp p) d0 defs rules sel outs reqs))))) p
+       = 105%Z
+    /\ exists pre ss, Scripts.run_scripts_ran (real_disp p) d0 defs rules sel outs = pre ++ [ss]
+                      /\ Scripts.ss_id ss = s.
+Proof. exact real_failure. Qed.
+Print Assumptions C18_failure_real_dispatcher.
+
+(* ... in terms of what the scripts do, from the dispatcher as the runner creates it (any
+   initial_run_count, any max-fail, facing the enabled scripts) *)
+Theorem C18_failure_any_script_real_dispatcher :
+  forall p n mf defs rules sel outs reqs,
+    let d0 := real_init n mf (N.of_nat (length (Scripts.enabled defs rules sel))) in
+    (exists ss, In ss (Scripts.enabled defs rules sel) /\
+                Scripts.is_success (Scripts.script_result outs ss) = false) ->
+    (forall t env, ~ In (Scripts.EvTestStarted t env)
+                        (snd (Scripts.run (real_disp p) d0 defs rules sel outs reqs)))
+    /\ exit_code (summarize_final (d_stats (rd_d (fst (Scripts.run (real_disp p) d0 defs rules sel outs reqs))))) p
+       = 105%Z.
+Proof. exact real_failure_any_script. Qed.
+Print Assumptions C18_failure_any_script_real_dispatcher.
+
+(* ... and when all of them succeed every requested test starts with its variables *)
+Theorem C18_all_succeed_real_dispatcher :
+  forall p n mf defs rules sel outs reqs,
+    let d0 := real_init n mf (N.of_nat (length (Scripts.enabled defs rules sel))) in
+    (forall ss, In ss (Scripts.enabled defs rules sel) ->
+                Scripts.is_success (Scripts.script_result outs ss) = true) ->
+    snd (Scripts.run (real_disp p) d0 defs rules sel outs reqs) =
+    flat_map (Scripts.script_events outs) (Scripts.enabled defs rules sel)
+    ++ map (fun t => Scripts.EvTestStarted t
+                       (Scripts.apply_env (flat_map (Scripts.env_entry outs) (Scripts.enabled defs rules sel)) t []))
+           reqs.
+Proof. exact real_all_succeed. Qed.
+Print Assumptions C18_all_succeed_real_dispatcher.
+
+(* the closed examples of Properties/C18.v, now run through the dispatcher model: scripts 0 and 2
+   enabled; all pass => both tests start (t0 with the variables), 2 scripts counted; script 0 writes
+   a reserved key => execution failure, script 2 and the tests are refused, exit 105 *)
+Example C18_real_dispatcher_examples :
+  let d0 := real_init 2 None 2 in
+  snd (Scripts.run (real_disp None) d0 [0; 1; 2] [C18.rA; C18.rB] [C18.t0] C18.outs_ok [C18.t1; C18.t0])
+  = [Scripts.EvScriptStarted 0; Scripts.EvScriptFinished 0 Scripts.RPass;
+     Scripts.EvScriptStarted 2; Scripts.EvScriptFinished 2 Scripts.RPass;
+     Scripts.EvTestStarted C18.t1 []; Scripts.EvTestStarted C18.t0 [([65], [49]); ([75], [50])]]
+  /\ snd (Scripts.run (real_disp None) d0 [0; 1; 2] [C18.rA; C18.rB] [C18.t0] C18.outs_f5 [C18.t1; C18.t0])
+     = [Scripts.EvScriptStarted 0; Scripts.EvScriptFinished 0 Scripts.RExecFail]
+  /\ Scripts.d_exit (real_disp None)
+       (fst (Scripts.run (real_disp None) d0 [0; 1; 2] [C18.rA; C18.rB] [C18.t0] C18.outs_f5 [C18.t1; C18.t0]))
+     = 105%Z
+  /\ d_cancel (rd_d (fst (Scripts.run (real_disp None) d0 [0; 1; 2] [C18.rA; C18.rB] [C18.t0] C18.outs_f5
+                                     [C18.t1; C18.t0])))
+     = Some SetupScriptFailure.
 Proof. repeat split; vm_compute; reflexivity. Qed.
